@@ -499,7 +499,7 @@ def coqchk(prop_files, timeout=3000):
 
 DRIVER_TAIL = r'''
 (* ---- generic driver appended by lib/vlib.py: reads "<id> hex hex ..." lines, prints "O <id> hex ..." ---- *)
-let n_of_hex (s : string) : n =
+let n_of_hex s =
   let acc = ref None in
   String.iter (fun c ->
     let d = match c with
@@ -515,7 +515,7 @@ let n_of_hex (s : string) : n =
     done) s;
   match !acc with None -> N0 | Some p -> Npos p
 
-let hex_of_n (x : n) : string =
+let hex_of_n x =
   match x with
   | N0 -> "0"
   | Npos p ->
